@@ -6,7 +6,12 @@
 // ops    wp_join p                    pool->join_current_vcpu_into_workpool()       (main_loop on this vCPU)
 //        wp_call p id a1 a2 ...       pool->call(body)      body: a = 0 thread_yield(), a > 0 thread_usleep(a)
 //        wp_async p id a1 a2 ...      pool->async_call(new Body)
-//        wp_destroy p                 wait until every issued submission has been pushed, then `delete pool`
+//        wp_destroy p q               gate, then `delete pool`.  The gate (harness code, modelled) makes the program
+//                                     respect the user contract and keeps E2's virtual time live:
+//                                     q = 0: spin (thread_yield) until every issued submission has been pushed;
+//                                     q = 1: poll with thread_usleep(37) until every issued task has finished
+//                                     (needed when task bodies sleep: virtual time only advances when the vCPU
+//                                     is idle, so the destructor's own yield loops would never see a sleeper wake)
 //        wp_tt                        placeholder program of the thread slots the MODEL uses for the photon
 //                                     threads that main_loop / the thread pool create (never run here)
 // A submission or join issued once the destroyer has started is not executed (-2/0): the user contract.
@@ -45,6 +50,7 @@ uint64_t ring_pushes(photon::WorkPool* p) { return (p->pImpl->ring->*rob_get(Que
 
 struct TaskRec { int runs = 0, fin = 0, del = 0; };
 std::map<int64_t, TaskRec> g_tasks;
+uint64_t g_fin_total = 0;
 struct PoolRec { photon::WorkPool* pool = nullptr; bool destroying = false; uint64_t issued = 0; };
 std::map<int64_t, PoolRec> g_pools;
 
@@ -59,6 +65,7 @@ struct Body {
         auto& r = g_tasks[id];
         log_ev(id, 0, ++r.runs);
         for (auto a : acts) { if (a == 0) photon::thread_yield(); else photon::thread_usleep((uint64_t)a); }
+        g_fin_total++;
         log_ev(id, 1, ++r.fin);
     }
     ~Body() { if (heap) log_ev(id, 2, ++g_tasks[id].del); }
@@ -104,14 +111,18 @@ E2_OP(wp_async) {
     return RV(0);
 }
 E2_OP(wp_destroy) {
-    auto pr = pool_of(c, op);
-    if (!pr) return RV(SKIPPED);
-    pr->destroying = true;
-    // every issued submission has been accepted (pushed): tail counts the pushes
-    while (ring_pushes(pr->pool) != pr->issued) photon::thread_yield();
-    delete pr->pool;
-    pr->pool = nullptr;
-    return RV(0);
+    for (;;) {
+        auto pr = pool_of(c, op);
+        if (!pr) return RV(SKIPPED);
+        if (op.a(1, 0) != 0 && g_fin_total != pr->issued) photon::thread_usleep(37);
+        else if (ring_pushes(pr->pool) != pr->issued) photon::thread_yield();
+        else {
+            pr->destroying = true;
+            delete pr->pool;
+            pr->pool = nullptr;
+            return RV(0);
+        }
+    }
 }
 E2_OP(wp_tt) { return RV(0); }
 E2_OP(wp_pt) { return RV(0); }
